@@ -289,6 +289,12 @@ class BaseCarver(BaseDiscretizer):
             Target of the development dataset, by default ``None``
             Should have the same distribution as y.
         """
+        # checking for previous fits before anything (orders, history) gets modified
+        assert not self.is_fitted, (
+            " - [AutoCarver] This Carver has already been fitted. "
+            "Fitting it anew could break established orders. Please initialize a new one."
+        )
+
         # preparing datasets and checking for wrong values
         x_copy, x_dev_copy = self._prepare_data(X, y, X_dev, y_dev)
 
